@@ -114,7 +114,9 @@ static std::string run_case(const KeySpec &k, const Rend &r, bool *nt = nullptr)
 
 int main(int argc, char **argv) {
   Args a = parse_args(argc, argv);
-  for (const char *n : {"rsa_2048", "rsa_3072", "rsa_4096", "rsa_2048b", "ec_p256", "ec_p384", "ec_p521", "ec_k256", "ed25519", "ed448", "rsa_2050", "rsa_2056"}) KEYS.push_back(load_fixture(n));
+  for (const char *n : {"rsa_2048", "rsa_3072", "rsa_4096", "rsa_2048b", "ec_p256", "ec_p384", "ec_p521", "ec_k256", "ed25519", "ed448", "rsa_2050", "rsa_2056",
+                        // integers that are ONE octet long: public exponents 3 and 17 (and 257: two octets), an EC private scalar of 5 (one octet once its leading zeros are stripped)
+                        "rsa_2048_e3", "rsa_2048_e17", "rsa_3072_e257", "ec_p256_d5"}) KEYS.push_back(load_fixture(n));
   size_t nfix = KEYS.size();
   cur_case() = [] { return rend_json(CURR, CURDOC); };
   Stats &st = stats();
